@@ -14,11 +14,15 @@ package c20
 
 import (
 	"bytes"
+	"errors"
 	"fmt"
 	"os"
 	"os/exec"
+	"runtime"
 	"strings"
+	"sync"
 	"testing"
+	"time"
 
 	"github.com/zeromicro/go-zero/internal/verifh"
 	"github.com/zeromicro/go-zero/tools/goctl/pkg/parser/api/ast"
@@ -434,11 +438,143 @@ func formatSrc0(src string) (status, out string) {
 			status, out = "panic", ""
 		}
 	}()
-	var b bytes.Buffer
-	if err := format.Source([]byte(src), &b); err != nil {
+	b := &budgetWriter{limit: 64*len(src) + 1<<16}
+	if err := format.Source([]byte(src), b); err != nil {
 		return "err", ""
 	}
-	return "ok", b.String()
+	return "ok", b.buf.String()
+}
+
+// budgetWriter (round 5c): the formatter may write at most 64 x the source + 64 KiB; a runaway formatter panics here
+// (recovered by the caller: fmt=panic, `crash instead of an error`) instead of filling the memory.
+type budgetWriter struct {
+	buf   bytes.Buffer
+	limit int
+}
+
+func (w *budgetWriter) Write(p []byte) (int, error) {
+	if w.buf.Len()+len(p) > w.limit {
+		panic("C20: output budget exceeded")
+	}
+	return w.buf.Write(p)
+}
+
+// failWriter returns an error once `after` bytes were written.
+type failWriter struct{ after, n int }
+
+func (w *failWriter) Write(p []byte) (int, error) {
+	if w.n+len(p) > w.after {
+		k := w.after - w.n
+		if k < 0 {
+			k = 0
+		}
+		w.n += k
+		return k, errors.New("c20: writer is full")
+	}
+	w.n += len(p)
+	return len(p), nil
+}
+
+// observeWrErr: format.Source into a writer that fails after a few bytes. AST.Format ignores the writer's error (tabwriter
+// Flush), so the result is the one of format.Source on a good writer; it must not crash.
+func observeWrErr(src string) string {
+	if len(src) == 0 {
+		return "na"
+	}
+	fs, _ := formatSrc(src)
+	st := "ok"
+	func() {
+		defer func() {
+			if p := recover(); p != nil {
+				st = "panic"
+			}
+		}()
+		if err := format.Source([]byte(src), &failWriter{after: len(src) % 7}); err != nil {
+			st = "err"
+		}
+	}()
+	return fmt.Sprintf("fmt=%s wr=%s", fs, st)
+}
+
+// observeFileX: format.File on a name that cannot be read (missing file / a directory).
+func observeFileX(t *testing.T, kind string) string {
+	dir := t.TempDir()
+	name := dir + "/missing.api"
+	if kind == "dir" {
+		name = dir + "/d.api"
+		if err := os.Mkdir(name, 0o700); err != nil {
+			return "na"
+		}
+	}
+	st := "ok"
+	func() {
+		defer func() {
+			if p := recover(); p != nil {
+				st = "panic"
+			}
+		}()
+		if err := format.File(name); err != nil {
+			st = "err"
+		}
+	}()
+	created := 0
+	if fi, err := os.Stat(name); err == nil && !fi.IsDir() {
+		created = 1
+	}
+	return fmt.Sprintf("fmt=na file=%s created=%d", st, created)
+}
+
+// observePar: four goroutines format concurrently (the source twice, the fixed program twice); every result must be the
+// sequential one (package-level state shared between parser / formatter instances; a data race on a shared map ends the
+// process: crash replay).
+func observePar(src string) string {
+	if len(src) == 0 {
+		return "na"
+	}
+	fs, out := formatSrc(src)
+	if c20OtherOut == "" {
+		_, c20OtherOut = formatSrc0(c20Other)
+	}
+	var wg sync.WaitGroup
+	res := make([]string, 4)
+	sts := make([]string, 4)
+	for i := 0; i < 4; i++ {
+		wg.Add(1)
+		go func(i int) {
+			defer wg.Done()
+			in := src
+			if i%2 == 1 {
+				in = c20Other
+			}
+			sts[i], res[i] = formatSrc0(in)
+		}(i)
+	}
+	wg.Wait()
+	same := sts[0] == fs && sts[2] == fs && res[0] == out && res[2] == out && res[1] == c20OtherOut && res[3] == c20OtherOut
+	pan := "ok"
+	for _, s := range sts {
+		if s == "panic" {
+			pan = "panic"
+		}
+	}
+	return fmt.Sprintf("fmt=%s par=%s same=%s", fs, pan, b01(same))
+}
+
+// c20Watchdog (round 5c): a runaway formatter (exponential growth inside one Format call) must not exhaust the machine:
+// the harness ends itself when its heap passes 1.5 GiB (the unchanged code needs about 0.1 GiB); the check turns the
+// dead harness into a crash replay of the section that was running.
+func c20Watchdog() {
+	go func() {
+		var ms runtime.MemStats
+		for {
+			time.Sleep(100 * time.Millisecond)
+			runtime.ReadMemStats(&ms)
+			if ms.HeapAlloc > 3<<29 {
+				fmt.Fprintf(os.Stderr, "C20 WATCHDOG: heap %d MiB: the formatter is running away; harness stops\n", ms.HeapAlloc>>20)
+				os.Exit(3)
+			}
+		}
+	}()
 }
 
 func b01(b bool) string {
@@ -659,6 +795,7 @@ func TestVerifC20EmptyChild(t *testing.T) {
 }
 
 func TestVerifC20(t *testing.T) {
+	c20Watchdog()
 	secs := verifh.Sections(c20Gen)
 	verifh.Run(t, secs, func(cfg verifh.Cfg) (func(op []string) string, func()) {
 		var src strings.Builder
@@ -681,6 +818,15 @@ func TestVerifC20(t *testing.T) {
 				return observeFile(t, src.String())
 			case "inter":
 				return observeInter(src.String())
+			case "wrerr":
+				return observeWrErr(src.String())
+			case "par":
+				return observePar(src.String())
+			case "filex":
+				if len(op) != 2 || (op[1] != "missing" && op[1] != "dir") {
+					return "bad-op"
+				}
+				return observeFileX(t, op[1])
 			}
 			return "bad-op"
 		}
